@@ -619,6 +619,14 @@ pub async fn handle_changes(
             buf_cost -= tmp_cost;
         }
 
+        #[cfg(feature = "verif-hooks")]
+        {
+            use klukai_types::verif::{HC_INFLIGHT, HC_QUEUE, HC_RECV, HC_SYNCED};
+            HC_QUEUE.set(queue.len() as i64);
+            HC_INFLIGHT.set(join_set.len() as i64);
+            HC_SYNCED.set(HC_RECV.get());
+        }
+
         let (change, src) = tokio::select! {
             biased;
 
@@ -667,6 +675,9 @@ pub async fn handle_changes(
                 break;
             }
         };
+
+        #[cfg(feature = "verif-hooks")]
+        klukai_types::verif::HC_RECV.add(1);
 
         let change_len = change.len();
         counter!("corro.agent.changes.recv").increment(std::cmp::max(change_len, 1) as u64); // count empties...
@@ -747,6 +758,8 @@ pub async fn handle_changes(
                 dropped_count += 1;
             }
             counter!("corro.agent.changes.dropped").increment(dropped_count);
+            #[cfg(feature = "verif-hooks")]
+            klukai_types::verif::HC_DROPPED.add(dropped_count as i64);
 
             log_at_pow_10("dropped old change from queue", &mut drop_log_count);
         }
